@@ -13,7 +13,7 @@
    step by the oracle of lib/props/c08.py, which found three classes of trees whose print loses
    or breaks something (C06-table-in-inline, C08-empty-container-vanishes, C08-key-decor-in-header). *)
 From TV Require Import Base.Prelude Spec.Ordered Model.Datetime Model.Numbers Model.Tree.
-From TV Require Import Spec.EditSpec Model.Edit Proofs.ContainersOrder Proofs.EditRefineBase Proofs.EditRefine.
+From TV Require Import Spec.EditSpec Model.Edit Proofs.ContainersOrder Proofs.EditRefineBase Proofs.EditRefine Proofs.EditVerbatim Proofs.EditWF.
 From Coq Require Import Sorting.Permutation.
 
 (* ---- decoded content ------------------------------------------------------------------ *)
@@ -73,6 +73,56 @@ Theorem C08_order_array_insert : forall (i : nat) (x : plain) l, i <= length l -
 Proof. intros i x l. apply v_ins_spec. Qed.
 Print Assumptions C08_order_array_insert.
 
+(* ---- verbatim --------------------------------------------------------------------------- *)
+(* `entry_repr t p` (Proofs/EditVerbatim.v) = the key stored for the entry at path p — its spelling
+   (repr), its leaf decor and its dotted decor — together with the entry's OWN formatting: value repr
+   and value decor, array decor / trailing / trailing comma, inline-table decor / preamble, table header
+   decor / flags / position; the children are left out (they are entries of their own).
+   `untouched o p`: p is not the entry the operation edits nor inside it — for insert / replace /
+   remove / the conversions: the entry of that key and everything below it; for array replace / remove:
+   that element; for fmt: the reformatted container and its direct children; for `doc[..] = x`: the
+   assigned entry and everything below it; push, insert and sort touch no existing entry.
+   `reloc o p`: where the entry is afterwards (array insert / remove shift the later elements).
+   (`snd e <> INone`: a placeholder left by `&mut doc[k]` is not an entry.)
+
+   Every untouched entry is IDENTICAL in the new tree: same key repr, key decor, value repr, value decor. *)
+Theorem C08_verbatim : forall t o t' p e,
+  apply o t = Some t' -> untouched o p = true ->
+  entry_repr t p = Some e -> snd e <> INone ->
+  entry_repr t' (reloc o p) = Some e.
+Proof. exact step_verbatim. Qed.
+Print Assumptions C08_verbatim.
+
+Theorem C08_history_verbatim : forall ops t t' p e,
+  apply_seq ops t = Some t' -> untouched_all ops p = true ->
+  entry_repr t p = Some e -> snd e <> INone ->
+  entry_repr t' (reloc_all ops p) = Some e.
+Proof. exact history_verbatim. Qed.
+Print Assumptions C08_history_verbatim.
+
+(* no operation leaves an `Item::None` placeholder behind: on documents reached from a parsed one
+   (where `no_none (abs t) = true`, see ex_no_none below) the side condition `snd e <> INone` above
+   and the constructor PNone of the plain tree never matter *)
+Theorem C08_step_wf : forall t o t',
+  apply o t = Some t' -> no_none (abs t) = true -> no_none (abs t') = true.
+Proof. exact step_no_none. Qed.
+Print Assumptions C08_step_wf.
+
+Theorem C08_history_wf : forall ops t,
+  no_none (abs t) = true -> no_none (abs (apply_all ops t)) = true.
+Proof. exact history_no_none. Qed.
+Print Assumptions C08_history_wf.
+
+(* The remaining gap to the property's wording ("the source text ... is unchanged"): from identical
+   reprs to identical printed fragments.  Model/Encode.v prints an entry from exactly the data in
+   `entry_repr` of the entry and of the dotted tables above it (encode_key_path over their keys,
+   encode_value over own repr + decor, the header from the table's decor), with DEFAULT decor
+   wherever a decor slot is `None`; every slot of a parsed entry is `Some`.  The statement
+       C08_verbatim_text : ... -> fragment (display_document t' tr) (reloc o p) = fragment (display_document t tr) p
+   is not proved: it needs a definition of `fragment` on text, i.e. the print/parse round trip of
+   edited trees (C06).  It is checked on the implementation after every step by the oracle
+   (lib/props/c08.py: `verbatim`), on the re-parsed text. *)
+
 (* ---- examples: a parsed document with comments ------------------------------------------ *)
 From TV Require Import Model.Parse Model.Document Model.Encode Extract.Show.
 Require Import String.
@@ -126,3 +176,104 @@ Proof. vm_compute. reflexivity. Qed.
 Example ex_not_applicable :
   match ex_root with Some r => applicable (OArrPush [SKey (str "a")] (PVInt 1)) r = false | None => False end.
 Proof. vm_compute. reflexivity. Qed.
+
+(* the hypotheses of C08_verbatim are satisfiable: the entry `a` (with its comment) while `c` is
+   inserted, `b[1]` while `b[0]` is removed (it moves to index 0) *)
+Example ex_untouched :
+  untouched (OInsert [] (str "c") (PVInt 1)) [SKey (str "a")] = true
+  /\ untouched (OArrRemove [SKey (str "b")] 0) [SKey (str "b"); SIdx 1] = true
+  /\ reloc (OArrRemove [SKey (str "b")] 0) [SKey (str "b"); SIdx 1] = [SKey (str "b"); SIdx 0]
+  /\ untouched (OInsert [] (str "a") (PVInt 1)) [SKey (str "a")] = false
+  /\ untouched (OFmt [SKey (str "t")]) [SKey (str "t"); SKey (str "k")] = false
+  /\ untouched (OFmt [SKey (str "t")]) [SKey (str "t"); SKey (str "k"); SKey (str "x")] = true.
+Proof. vm_compute. repeat split; reflexivity. Qed.
+
+Example ex_entry_repr :
+  match ex_root with
+  | Some r =>
+    entry_repr r [SKey (str "a")]
+    = Some (Some (mkKey (str "a") (Some (RExplicit (str "a")))
+                        (mkDecor (Some (RExplicit (str "# top
+"))) (Some (RExplicit (str " ")))) (mkDecor (Some REmpty) (Some REmpty))),
+            IValue (VScalar (SInt 1) (Some (RExplicit (str "1")))
+                            (mkDecor (Some (RExplicit (str " "))) (Some (RExplicit (str " # one"))))))
+  | None => False
+  end.
+Proof. vm_compute. reflexivity. Qed.
+
+Example ex_no_none : match ex_root with Some r => no_none (abs r) = true | None => False end.
+Proof. vm_compute. reflexivity. Qed.
+
+(* ---- the text-level half is FALSE of the faithful model on three classes of trees ------------
+   (findings; each witness is replayed on the real code by lib/props/c08.py: WITNESSES) *)
+
+(* parse, into_mut, apply the operations (all applicable), print *)
+Definition edited (s : bytes) (ops : list op) : option tbl :=
+  match parse_document s with
+  | POk d => match tbl_despan s (doc_root d) with Some r => apply_seq ops r | None => None end
+  | _ => None
+  end.
+Definition printed (s : bytes) (ops : list op) : option bytes :=
+  match edited s ops with Some r => Some (display_document r REmpty) | None => None end.
+
+(* C08-key-decor-in-header: `Item::into_table` stored back in the slot (likewise `doc["c"] = table()`)
+   keeps the stored key, whose leaf decor holds the comment line above the entry; the header is
+   printed as `[# c<newline>c ]`: NOT valid TOML *)
+Theorem C08_text_valid_refuted :
+  exists s ops txt, printed s ops = Some txt /\ forall d, parse_document txt <> POk d.
+Proof.
+  exists (str "# c
+c = { x = 1 }
+"), [OIntoTable [] (str "c")], (str "[# c
+c ]
+x = 1
+").
+  split; [vm_compute; reflexivity|]. intros d H. vm_compute in H. discriminate H.
+Qed.
+Print Assumptions C08_text_valid_refuted.
+
+(* C06-table-in-inline (DESIGN.md F13): a table assigned under an inline-table parent is dropped by
+   the printer — the text is valid TOML but its content is not the edited content *)
+Theorem C08_text_content_refuted_table_in_inline :
+  exists s ops r txt d2,
+    edited s ops = Some r /\ printed s ops = Some txt /\ parse_document txt = POk d2 /\
+    abs (doc_root d2) <> abs r.
+Proof.
+  eexists (str "t = {a = 1}
+"), [OISet [str "t"; str "x"] IPTable; OISet [str "t"; str "x"; str "y"] (IPValue (PVInt 1))], _, _, _.
+  split; [vm_compute; reflexivity|]. split; [vm_compute; reflexivity|]. split; [vm_compute; reflexivity|].
+  intro H. vm_compute in H. discriminate H.
+Qed.
+Print Assumptions C08_text_content_refuted_table_in_inline.
+
+(* C08-empty-container-vanishes: a dotted table left without key/value lines (likewise an implicit
+   table without sub-tables, an array of tables without elements) has no spelling and disappears *)
+Theorem C08_text_content_refuted_empty_container :
+  exists s ops r txt d2,
+    edited s ops = Some r /\ printed s ops = Some txt /\ parse_document txt = POk d2 /\
+    abs (doc_root d2) <> abs r.
+Proof.
+  eexists (str "a.b = 1
+"), [ORemove [SKey (str "a")] (str "b")], _, _, _.
+  split; [vm_compute; reflexivity|]. split; [vm_compute; reflexivity|]. split; [vm_compute; reflexivity|].
+  intro H. vm_compute in H. discriminate H.
+Qed.
+Print Assumptions C08_text_content_refuted_empty_container.
+
+(* C08-unpositioned-element-misplaced: an array-of-tables element pushed through the API has no
+   doc_position; after sort_values has reordered the sub-tables of the previous element the new
+   `[[c]]` header is printed before `[c.a]`, which thereby moves to the new element *)
+Theorem C08_text_content_refuted_unpositioned_element :
+  exists s ops r txt d2,
+    edited s ops = Some r /\ printed s ops = Some txt /\ parse_document txt = POk d2 /\
+    abs (doc_root d2) <> abs r.
+Proof.
+  eexists (str "[[c]]
+[[c.b]]
+[c.a]
+x = 1
+"), [OAotPush [SKey (str "c")]; OSort [SKey (str "c"); SIdx 0]], _, _, _.
+  split; [vm_compute; reflexivity|]. split; [vm_compute; reflexivity|]. split; [vm_compute; reflexivity|].
+  intro H. vm_compute in H. discriminate H.
+Qed.
+Print Assumptions C08_text_content_refuted_unpositioned_element.
